@@ -348,6 +348,7 @@ def run_playback_tests(root, crate, appended, timeout_s, logdir):
       return {}, "native playback timed out"
   out = open(logpath, errors="replace").read()
   res = {}
+  blocks = {}
   for n in names:
     m = re.search(r"test \S*%s \.\.\. (\w+)" % re.escape(n), out)
     if m:
@@ -358,4 +359,6 @@ def run_playback_tests(root, crate, appended, timeout_s, logdir):
       if failed and b and "Not enough det vals found" in b.group(1):
         failed = False
       res[n] = failed
+      blocks[n] = b.group(1) if b else ""
+  res["_blocks"] = blocks
   return res, out[-4000:]
